@@ -135,8 +135,38 @@ def main():
                     break
         if len(bad) >= 50:
             break
-    json.dump(dict(cases=cases, wellformed_with_3_or_more_tokens=nontrivial, max_tokens=n_max, alphabet=ALPHABET,
-                   disagreements=bad), open(out, 'w'), indent=1)
+    # literal notations (decimal, $ / 0x / trailing-H hexadecimal, % / b binary, quoted character): every value of a
+    # window in every notation must denote its mathematical value, alone and inside an expression
+    lit_cases = 0
+    values = list(range(0, 600)) + [2 ** 16 - 1, 2 ** 16, 2 ** 32 + 5, 2 ** 64 - 1]
+    for v in values:
+        hx = f'{v:X}'
+        forms = [str(v), f'${v:x}', f'${v:X}', f'0x{v:x}', f'0x{v:X}', f'%{v:b}', f'b{v:b}']
+        forms.append((hx if hx[0].isdigit() else '0' + hx) + 'H')
+        for form in forms:
+            for text, want in ((form, v), (f'{form}+1', v + 1), (f'2*{form}', 2 * v)):
+                lit_cases += 1
+                try:
+                    got = ('ok', real_eval(text))
+                except Reject:
+                    got = ('reject', None)
+                if got != ('ok', want) and len(bad) < 50:
+                    bad.append(dict(text=text, expected=('ok', want), observed=got))
+    for code in range(32, 127):
+        ch = chr(code)
+        if ch in "'\\":
+            continue
+        lit_cases += 1
+        text = f"'{ch}'"
+        try:
+            got = ('ok', real_eval(text))
+        except Reject:
+            got = ('reject', None)
+        if got != ('ok', code) and len(bad) < 50:
+            bad.append(dict(text=text, expected=('ok', code), observed=got))
+    cases += lit_cases
+    json.dump(dict(cases=cases, literal_cases=lit_cases, wellformed_with_3_or_more_tokens=nontrivial, max_tokens=n_max,
+                   alphabet=ALPHABET, disagreements=bad), open(out, 'w'), indent=1)
     print(f'bounded C07 parser check: {cases} token sequences up to length {n_max}, {len(bad)} disagreements')
     for b in bad[:10]:
         print('  ', b)
